@@ -263,7 +263,9 @@ fn run() {
 fn gen_state(rng: &mut Rng, q: i64, handbuilt: bool) -> String {
     let t = rng.range(0, 6);
     let id = rng.range(1, 2);
-    let filled = *rng.pick(&[0, q / 2, q]);
+    // 6% over-filled reports (filled = q + 1): "nothing left to fill" is `remaining == 0`, so such an
+    // order stays tracked (audit/oracle/C01.md C01-M3: `is_zero()` vs `<= 0` must be distinguishable)
+    let filled = if rng.chance(6) { q + 1 } else { *rng.pick(&[0, q / 2, q]) };
     let r = rng.below(100);
     if handbuilt && r < 10 {
         if rng.chance(50) {
